@@ -820,6 +820,23 @@ func (fx *FX) execReturn(st *State, x *ssa.Return) {
 			env.local["result"] = res[0]
 		}
 		for _, c := range fx.fc.Ensures {
+			// vacuity cover per clause: the antecedent of `A ==> B` must be satisfiable at some return
+			if b, ok := c.E.(EBin); ok && b.Op == "==>" {
+				g := st.PC
+				if fx.domainAll.S != "" {
+					g = and(g, fx.domain)
+					if d, ok := fx.domainFor[c.Label]; ok {
+						g = and(g, d)
+					}
+				}
+				if fx.anteCovers == nil {
+					fx.anteCovers = map[string][]T{}
+				}
+				if _, seen := fx.anteCovers[c.Label]; !seen {
+					fx.anteOrder = append(fx.anteOrder, c.Label)
+				}
+				fx.anteCovers[c.Label] = append(fx.anteCovers[c.Label], and(g, fx.hypBool(env, b.X)))
+			}
 			fx.oblige("post", c.Label, st.PC, fx.goalBool(env, c.E), x.Pos(), c.Src)
 		}
 	}
